@@ -38,21 +38,36 @@ def handle (j : Json) : Json :=
     let n := infos.length
     let sortBased := s == .drained || s == .each || s == .fill
     let feas := feasible s infos need limit
+    let unordered := jbool (jget j "unordered")
+    let nozero := jbool (jget impl "nozero")
     let (agree, viol, cls) : Bool × List String × String :=
       if jhas impl "ok" then
         let p := planOfJson (jget impl "ok")
-        let v1 := if c01 s infos need limit p then [] else ["C01:" ++ sname]
+        -- cluster-level FILL cases cannot observe the zero entries of nodes already at the level
+        let c01ok :=
+          if nozero then
+            c01Common infos p &&
+            infos.all (fun i => p.get i.name == 0 || (p.get i.name == need - i.count && i.cap ≥ need - i.count)) &&
+            decide (((infos.filter (fun i => p.get i.name > 0)).length : Int) ≤ effLimit infos limit)
+          else c01 s infos need limit p
+        let v1 := if c01ok then [] else ["C01:" ++ sname]
         let v2 := if feas then [] else ["C02:planned-when-infeasible:" ++ sname]
-        let v3 := if c03 s infos need limit p then [] else ["C03:" ++ sname]
+        -- usage/rate of cluster-level cases are rounded floats: GLOBAL's balance is only checked on exact inputs;
+        -- FILL's preference needs the zero entries
+        let c03ok := if unordered && (s == .global || nozero) then true else c03 s infos need limit p
+        let v3 := if c03ok then [] else ["C03:" ++ sname]
         let exact := match model with | .ok m => planEq infos m p | _ => false
-        -- beyond insertion-sort range the sort's tie order is unspecified: accept any plan that
-        -- satisfies the (order-independent) specification when the model also produced a plan
-        let modTies := sortBased && n > 12 && model.isOk && v1.isEmpty && v3.isEmpty
+        -- beyond insertion-sort range the sort's tie order is unspecified, and cluster-level cases present the
+        -- candidates in Go map order: accept any plan satisfying the (order-independent) specification when the
+        -- model also produced a plan
+        let modTies := ((sortBased && n > 12) || unordered) && model.isOk && v1.isEmpty && v2.isEmpty && v3.isEmpty
         (exact || modTies, v1 ++ v2 ++ v3, if exact then "plan" else if modTies then "plan-mod-ties" else "plan-mismatch")
       else if jhas impl "err" then
         let e := jstr (jget impl "err")
         let v2 := if isRefusal e && feas && need ≥ 1 then ["C02:refused-when-feasible:" ++ sname] else []
-        let agree := match model with | .err e' => e == e' | _ => false
+        let agree := match model with
+          | .err e' => e == e' || (unordered && isRefusal e && isRefusal e')
+          | _ => false
         (agree, v2, "err:" ++ e)
       else
         let agree := match model with | .panic _ => jhas impl "panic" | .diverge => jhas impl "timeout" | _ => false
